@@ -41,6 +41,17 @@ static WD_SINCE_MS: AtomicU64 = AtomicU64::new(0);
 static WD_WHAT: Mutex<String> = Mutex::new(String::new());
 static START: OnceLock<Instant> = OnceLock::new();
 pub const WEDGE_LIMIT_MS: u64 = 20_000;
+/// the limit in force (ms): `WEDGE_LIMIT_MS` except inside `with_wedge_limit`
+static WD_LIMIT_MS: AtomicU64 = AtomicU64::new(WEDGE_LIMIT_MS);
+
+/// Runs that are known to be heavy (tens of thousands of aircraft: the program's sweep is quadratic there) get a
+/// longer watchdog limit, so that a loaded machine does not turn them into a "wedge".
+pub fn with_wedge_limit<R>(ms: u64, f: impl FnOnce() -> R) -> R {
+    let old = WD_LIMIT_MS.swap(ms, SeqCst);
+    let r = f();
+    WD_LIMIT_MS.store(old, SeqCst);
+    r
+}
 
 fn mono_ms() -> u64 {
     // real monotonic time: the watchdog must not be fooled by the virtual offset
@@ -107,12 +118,12 @@ pub fn init(on_wedge: Option<Box<dyn Fn(&str) + Send + Sync>>) {
         .spawn(move || {
             loop {
                 crate::shim::real_sleep_us(250_000);
-                if WD_BUSY.load(SeqCst) && mono_ms().saturating_sub(WD_SINCE_MS.load(SeqCst)) > WEDGE_LIMIT_MS {
+                if WD_BUSY.load(SeqCst) && mono_ms().saturating_sub(WD_SINCE_MS.load(SeqCst)) > WD_LIMIT_MS.load(SeqCst) {
                     let what = WD_WHAT.lock().map(|g| g.clone()).unwrap_or_default();
                     if let Some(f) = &on_wedge {
                         f(&what);
                     }
-                    eprintln!("WEDGE: reader did not finish within {WEDGE_LIMIT_MS} ms: {what}");
+                    eprintln!("WEDGE: reader did not finish within {} ms: {what}", WD_LIMIT_MS.load(SeqCst));
                     unsafe { libc::_exit(4) };
                 }
             }
